@@ -496,7 +496,11 @@ func DecodeChunks(msgs []*btpb.ReadRowsResponse) ([]RowOut, string) {
 				return rows, where + fmt.Sprintf(": row key %q inside uncommitted row %q (missing commit)", ch.RowKey, cur.Key)
 			}
 			if curCellOpen {
-				// continuation of a split cell value
+				// continuation of a split cell value: it carries value bytes only (what the official client enforces:
+				// "cell key components found while CELL_IN_PROGRESS")
+				if ch.FamilyName != nil || ch.Qualifier != nil || ch.TimestampMicros != 0 || len(ch.Labels) != 0 {
+					return rows, where + ": a chunk that continues a cell value repeats key components of the cell (family / qualifier / timestamp / labels)"
+				}
 				f := &cur.Fams[len(cur.Fams)-1]
 				c := &f.Cols[len(f.Cols)-1]
 				c.Cells[len(c.Cells)-1].Val += string(ch.Value)
